@@ -2,5 +2,5 @@
 
 package userauth
 
-// VerifInitMsgBytes = newUserAuthInitMsg(user).toBytes()
-func VerifInitMsgBytes(user string) []byte { return newUserAuthInitMsg(user).toBytes() }
+// VerifWireInitMsgBytes = newUserAuthInitMsg(user).toBytes()
+func VerifWireInitMsgBytes(user string) []byte { return newUserAuthInitMsg(user).toBytes() }
